@@ -112,6 +112,11 @@ def main():
     viol = [r for r in results if r.status == 'violation']
     decided = [r for r in results if r.status in ('pass', 'violation', 'known')]
     inconc = [r for r in results if r.status == 'inconclusive']
+    seen_known = set()
+    for r in results:
+        if r.status == 'known' and r.known not in seen_known:
+            seen_known.add(r.known)
+            print('KNOWN-FINDING: property=%s %s %s' % (pid, r.known, (r.detail or '')[:300].replace('\n', ' ')), flush=True)
     for r in inconc:
         log('INCONCLUSIVE obligation=%s %s' % (r.name, (r.detail or '')[:300].replace('\n', ' ')))
     for r in viol:
